@@ -1489,9 +1489,12 @@ func (m *metadataAPI) RemoveStream(stream *stream, recovered bool, epoch uint64)
 	if err := m.removeStreamLocked(stream, recovered, epoch); err != nil {
 		return err
 	}
-	if !recovered {
-		m.streamDeleted(stream.GetName(), epoch)
-	}
+	// The consumer groups are told here also when the operation is applied
+	// during recovery, where the stream itself is only tombstoned: how a group
+	// rebalances depends on what its members hold at that moment, so it must see
+	// the deletion at the same place of the log as the servers that applied it
+	// live did, not after the group operations that follow it.
+	m.streamDeleted(stream.GetName(), epoch)
 	return nil
 }
 
